@@ -439,13 +439,13 @@ type BalancesPair struct {
 	Balances []uint64
 }
 
-func (p *Pegnet) IsIncludedTopPEGAddress(address []byte) bool {
+func (p *Pegnet) IsIncludedTopPEGAddress(address []byte) (bool, error) {
 	count := 100 // Top 100 addresses
 	stmtStringFmt := `SELECT address, %[1]s_balance FROM pn_addresses WHERE %[1]s_balance > 0 ORDER BY %[1]s_balance DESC LIMIT ?;`
 	stmt := fmt.Sprintf(stmtStringFmt, strings.ToLower("PEG"))
 	rows, err := p.DB.Query(stmt, count)
 	if err != nil {
-		return false
+		return false, err
 	}
 	defer rows.Close()
 
@@ -453,13 +453,13 @@ func (p *Pegnet) IsIncludedTopPEGAddress(address []byte) bool {
 		var Balance uint64
 		var adr []byte
 		if err := rows.Scan(&adr, &Balance); err != nil {
-			return false
+			return false, err
 		}
 		if bytes.Equal(address, adr) {
-			return true
+			return true, nil
 		}
 	}
-	return false
+	return false, rows.Err()
 }
 
 // SelectRichList returns the balance of all addresses for a given ticker
